@@ -1122,7 +1122,17 @@ pub fn check_equality(ctx: &mut Ctx, h: &History, case: &str, seed: u64) {
         }
         // different last move
         let lg = owlchess::movegen::legal::gen_all(d.last());
-        if let Some(alt) = lg.iter().find(|m| **m != obs.moves[obs.len - 1]) {
+        // prefer the closest look-alike: same squares with another promotion piece, same destination
+        let last = obs.moves[obs.len - 1];
+        let alt = lg
+            .iter()
+            .find(|m| **m != last && m.src() == last.src() && m.dst() == last.dst())
+            .or_else(|| lg.iter().find(|m| **m != last && m.dst() == last.dst()))
+            .or_else(|| lg.iter().find(|m| **m != last));
+        if let Some(alt) = alt {
+            if alt.src() == last.src() && alt.dst() == last.dst() {
+                ctx.feature("equality_same_squares_other_promotion");
+            }
             d.clear_outcome();
             if d.push(*alt).is_ok() {
                 d.reset_outcome(obs.outcome);
